@@ -169,6 +169,7 @@ pub fn run_c11(ctx: &Ctx) -> (&'static str, &'static str) {
         (Some(BigUint::one()), Some(BigUint::one()), "(g1,g2)"),
         (Some(a.clone()), Some(b.clone()), "([a]g1,[b]g2)"),
         (Some(na.clone()), Some(b.clone()), "(-[a]g1,[b]g2)"),
+        (Some(a.clone()), Some(r() - &b), "([a]g1,-[b]g2)"),
         (None, Some(BigUint::one()), "(O,g2)"),
         (Some(BigUint::one()), None, "(g1,O)"),
     ];
@@ -233,8 +234,8 @@ pub fn run_c11(ctx: &Ctx) -> (&'static str, &'static str) {
                 if q12_of(&mp) != want {
                     return Err(Fail::new("pairing_multi_product != product of the pairings"));
                 }
-                let has_id = d.iter().any(|&k| k >= 3);
-                Ok(if len == 0 { "empty list" } else if esum.is_zero() && d.iter().any(|&k| k < 3) { "cancelling exponents" } else if has_id { "identity pair inside" } else { "generic list" })
+                let has_id = d.iter().any(|&k| k >= 4);
+                Ok(if len == 0 { "empty list" } else if esum.is_zero() && d.iter().any(|&k| k < 4) { "cancelling exponents" } else if has_id { "identity pair inside" } else { "generic list" })
             },
         );
     }
@@ -246,8 +247,8 @@ pub fn run_c11(ctx: &Ctx) -> (&'static str, &'static str) {
             |i| json!({"len": len, "identity_at": i / 2, "which": if i % 2 == 0 {"(O,g2)"} else {"(g1,O)"}}),
             |i| {
                 let pos = (i / 2) as usize;
-                let idk = 3 + (i % 2) as usize;
-                let d: Vec<usize> = (0..len).map(|t| if t == pos { idk } else { t % 3 }).collect();
+                let idk = 4 + (i % 2) as usize;
+                let d: Vec<usize> = (0..len).map(|t| if t == pos { idk } else { t % 4 }).collect();
                 let mut esum = BigUint::zero();
                 for &k in &d {
                     esum = (esum + &contrib[k]) % r();
@@ -266,26 +267,27 @@ pub fn run_c11(ctx: &Ctx) -> (&'static str, &'static str) {
     // cancelling patterns, an identity in the middle
     {
         let lens: Vec<usize> = ctx.tier.pick(vec![15, 16, 17, 18, 31, 32, 33, 34, 64, 65], vec![15, 16, 17, 18, 19, 31, 32, 33, 34, 47, 48, 49, 63, 64, 65, 96, 127, 128, 129, 256, 257]);
-        let rad = [lens.len() as u64, 3];
+        let rad = [lens.len() as u64, 4];
         ctx.sweep(
             "pair_lists.long",
             crate::infra::space(&rad),
             |i| {
                 let d = unrank(i, &rad);
-                json!({"len": lens[d[0]], "pattern": (["cyclic non-identity pairs", "cancelling: ([a]g1,[b]g2) and (-[a]g1,[b]g2) alternate", "cyclic with an identity pair in the middle"][d[1]])})
+                json!({"len": lens[d[0]], "pattern": (["cyclic non-identity pairs", "cancelling: ([a]g1,[b]g2) and (-[a]g1,[b]g2) alternate", "cyclic with an identity pair in the middle", "cancelling on the G2 side: ([a]g1,[b]g2) and ([a]g1,-[b]g2) alternate"][d[1]])})
             },
             |i| {
                 let d = unrank(i, &rad);
                 let len = lens[d[0]];
                 let idx: Vec<usize> = (0..len)
                     .map(|t| match d[1] {
-                        0 => t % 3,
+                        0 => t % 4,
                         1 => 1 + (t % 2),
+                        3 => 1 + 2 * (t % 2),
                         _ => {
                             if t == len / 2 {
-                                3 + (t % 2)
+                                4 + (t % 2)
                             } else {
-                                t % 3
+                                t % 4
                             }
                         }
                     })
@@ -307,7 +309,52 @@ pub fn run_c11(ctx: &Ctx) -> (&'static str, &'static str) {
                 if q12_of(&mp) != want {
                     return Err(Fail::new(format!("pairing_multi_product over {} pairs != product of the pairings", len)));
                 }
-                Ok(if d[1] == 1 && len % 2 == 0 { "long cancelling list" } else { "long list" })
+                Ok(if (d[1] == 1 || d[1] == 3) && len % 2 == 0 { "long cancelling list" } else { "long list" })
+            },
+        );
+    }
+    // preparation does not depend on what was prepared before on the same thread: every sequence of up to 3 preparations over
+    // {g2, [b]g2, -[b]g2, O} (each sequence on a thread of its own), the last one compared - through a Miller loop against g1,
+    // bit for bit - with the same point prepared first thing on a fresh thread
+    {
+        let g2s: Vec<G2Affine> = vec![pts[0].1, pts[1].1, pts[3].1, G2Affine::zero()];
+        let names = ["g2", "[b]g2", "-[b]g2", "O"];
+        let g1p = pts[0].0;
+        let alone: Vec<Fq12> = g2s
+            .iter()
+            .map(|qq| {
+                let qq = *qq;
+                std::thread::spawn(move || Bls12::miller_loop([(&g1p.prepare(), &qq.prepare())].iter())).join().expect("harness: preparing on a fresh thread failed")
+            })
+            .collect();
+        let mut seqs: Vec<Vec<usize>> = vec![];
+        for len in 1..=3usize {
+            let rad: Vec<u64> = vec![4; len];
+            for i in 0..crate::infra::space(&rad) {
+                seqs.push(unrank(i, &rad));
+            }
+        }
+        ctx.sweep(
+            "prepare_history",
+            seqs.len() as u64,
+            |i| json!({"prepared_in_order": seqs[i as usize].iter().map(|&k| names[k]).collect::<Vec<_>>()}),
+            |i| {
+                let sq = seqs[i as usize].clone();
+                let g2s = g2s.clone();
+                let got = std::thread::spawn(move || {
+                    let mut last = None;
+                    for &k in &sq {
+                        last = Some(g2s[k].prepare());
+                    }
+                    Bls12::miller_loop([(&g1p.prepare(), &last.unwrap())].iter())
+                })
+                .join()
+                .map_err(|_| Fail::new("preparing a G2 point panicked"))?;
+                let k = *seqs[i as usize].last().unwrap();
+                if got != alone[k] {
+                    return Err(Fail::new(format!("G2 prepare of {} depends on what was prepared before it on the same thread", names[k])));
+                }
+                Ok(if seqs[i as usize].len() > 1 { "history" } else { "" })
             },
         );
     }
@@ -322,6 +369,6 @@ pub fn run_c11(ctx: &Ctx) -> (&'static str, &'static str) {
     ctx.assume("expected values E^(sum a_i b_i mod r) with E the reference e(g1,g2) (C03 ties the single pairing to the textbook evaluation)");
     (
         "exploration",
-        "ALL lists of length 0..4 (quick) / 0..6 (thorough) over the pair alphabet {(g1,g2), ([a]g1,[b]g2), (-[a]g1,[b]g2), (O,g2), (g1,O)} - which contains cancelling combinations and identities at every position - through final_exponentiation(miller_loop(list)), pairing_product (length 2) and pairing_multi_product against e(g1,g2)^(sum a_i b_i); lists of length 8 and 9 with an identity pair at each position; long lists (15..18, 31..34, 64, 65; thorough up to 257) in generic, cancelling and identity-in-the-middle patterns through the Miller loop and pairing_multi_product; the same prepared elements are reused by every list and the first Miller loop is reproduced bit for bit at the end; non-trivial = non-empty list",
+        "ALL lists of length 0..4 (quick) / 0..6 (thorough) over the pair alphabet {(g1,g2), ([a]g1,[b]g2), (-[a]g1,[b]g2), ([a]g1,-[b]g2), (O,g2), (g1,O)} - which contains cancelling combinations and identities at every position - through final_exponentiation(miller_loop(list)), pairing_product (length 2) and pairing_multi_product against e(g1,g2)^(sum a_i b_i); lists of length 8 and 9 with an identity pair at each position; long lists (15..18, 31..34, 64, 65; thorough up to 257) in generic, cancelling and identity-in-the-middle patterns through the Miller loop and pairing_multi_product; the same prepared elements are reused by every list and the first Miller loop is reproduced bit for bit at the end; non-trivial = non-empty list",
     )
 }
